@@ -475,11 +475,13 @@ class Verifier:
                         probe("rejected_after_valid_prefix")
                     last_fault = idx
             elif k == "get":
+                probe("checked:get_eq_model")
                 if model.known and r[:2] != ("ok", norm(model.table)):
                     out.append(Violation("get_eq_model", idx, {"got": r[:2], "want": norm(model.table)}))
                 if last_fault is not None:
                     probe("read_after_fault:get")
             elif k == "get_preset":
+                probe("checked:preset_eq_pristine")
                 if r[:2] != ("ok", norm(self.presets[op["name"]])):
                     out.append(Violation("preset_eq_pristine", idx, {"name": op["name"], "got": r[:2]}))
                 if last_fault is not None:
@@ -527,6 +529,7 @@ class Verifier:
                 if model.known:
                     call = ("decode", op["x"], op["compatible"], op["attribute"])
                     want = ask(model.src, call)
+                    probe("checked:decode_eq_oracle")
                     if r[:2] != want[:2]:
                         out.append(Violation("decode_eq_oracle", idx, {"got": r[:2], "want": want[:2], "msg": (r[2], want[2])}))
                     self._discriminating(probe, prev_src, model, call, want, since_change)
@@ -543,6 +546,7 @@ class Verifier:
                     probe("fault_failing_encode:" + str(r[1]))
                 if not op["strict"]:
                     want = ask(None, call)
+                    probe("checked:encode_eq_oracle")
                     if r[:2] != want[:2]:
                         out.append(Violation("encode_eq_oracle", idx, {"got": r[:2], "want": want[:2]}))
                     if model.known and model.src is not None:
@@ -553,6 +557,7 @@ class Verifier:
                         out.append(Violation("nonstrict_raises_molgen", idx, {"got": r[:2], "s": op["s"]}))
                 elif model.known:
                     want = ask(model.src, call)
+                    probe("checked:strict_eq_oracle")
                     if r[:2] != want[:2]:
                         out.append(Violation("strict_eq_oracle", idx, {"got": r[:2], "want": want[:2], "msg": (r[2], want[2])}))
                     self._discriminating(probe, prev_src, model, call, want, since_change)
